@@ -8,6 +8,7 @@
 (*            empty unless unit multipliers)                                                   *)
 (*   "lex"    chars (code points of a text), toks (observed token texts as code points,        *)
 (*            <<<<-1>>>> if the tokeniser raised)                                              *)
+(*   "scaled" the shipped rules through get_ruleset with multipliers (after the items)         *)
 (*   "begin" / "item"  the shipped rule files, one event per DEFINE / RULE item, validated      *)
 (*            statefully: the model state (aliases, rules) lives in the variable st and is      *)
 (*            resynchronised to the logged state after a mismatch                               *)
@@ -45,12 +46,12 @@ ObsTree(o) == LET raw == ObsRaw(o) IN IF HasNone(raw) THEN NoNode ELSE Norm(raw)
 (* --- one expected rule against one observed rule projection --- *)
 RuleDiff(e, o) ==
     (IF o.category # e.category THEN {"category"} ELSE {})
-    \cup (IF o.cutoff # e.cutoff THEN {"cutoff_is_kb_times_1000_times_multiplier"} ELSE {})
-    \cup (IF o.nbhd # e.nbhd THEN {"neighbourhood_is_kb_times_1000_times_multiplier"} ELSE {})
-    \cup (IF AsSet(o.superiors) # e.superiors THEN {"superiors_transitively_closed"} ELSE {})
-    \cup (IF ~SameTree(e.ast, ObsTree(o.tree)) THEN {"conditions_denoted"} ELSE {})
-    \cup (IF (e.ext.k # "none") # o.ext.has THEN {"extenders_denoted"}
-          ELSE IF o.ext.has /\ ~SameTree(e.ext, ObsTree(o.ext.tree)) THEN {"extenders_denoted"} ELSE {})
+    \cup (IF o.cutoff # e.cutoff THEN {"cutoff_scaled"} ELSE {})
+    \cup (IF o.nbhd # e.nbhd THEN {"neighbourhood_scaled"} ELSE {})
+    \cup (IF AsSet(o.superiors) # e.superiors THEN {"superiors_closed"} ELSE {})
+    \cup (IF ~SameTree(e.ast, ObsTree(o.tree)) THEN {"conditions"} ELSE {})
+    \cup (IF (e.ext.k # "none") # o.ext.has THEN {"extenders"}
+          ELSE IF o.ext.has /\ ~SameTree(e.ext, ObsTree(o.ext.tree)) THEN {"extenders"} ELSE {})
 RulesDiff(exp, obs) ==
     IF Len(exp) # Len(obs) THEN {"rule_count"}
     ELSE IF {exp[i].name : i \in DOMAIN exp} # {obs[i].name : i \in DOMAIN obs} THEN {"rule_names"}
@@ -59,12 +60,13 @@ RulesDiff(exp, obs) ==
 (* round trip of one parsed rule o (unit multipliers): rt = [exc, v: rule projection] *)
 RoundTripDiff(o, rt) ==
     IF rt.exc # "" THEN {"roundtrip_parses:" \o rt.exc}
-    ELSE (IF rt.v.name # o.name THEN {"roundtrip_same_name"} ELSE {})
-         \cup (IF rt.v.cutoff # o.cutoff \/ rt.v.nbhd # o.nbhd THEN {"roundtrip_same_distances"} ELSE {})
-         \cup (IF ~SameTree(ObsTree(o.tree), ObsTree(rt.v.tree)) THEN {"roundtrip_same_meaning"} ELSE {})
+    ELSE (IF rt.v.name # o.name THEN {"roundtrip_name"} ELSE {})
+         \cup (IF rt.v.cutoff # o.cutoff \/ rt.v.nbhd # o.nbhd THEN {"roundtrip_distances"} ELSE {})
+         \cup (IF ~SameTree(ObsTree(o.tree), ObsTree(rt.v.tree)) THEN {"roundtrip_meaning"} ELSE {})
 
 (* flags under which the documentation does not decide between acceptance and rejection *)
-EitherWay == {"alias_forward_reference", "cds_with_one_operand", "operands_equal_up_to_parentheses", "example_values"}
+EitherWay == {"alias_forward_reference", "alias_self_reference", "cds_with_one_operand",
+              "operands_equal_up_to_parentheses", "example_values"}
 ParseFailed(ev) ==
     LET env == [sigs |-> AsSet(ev.sigs), cats |-> AsSet(ev.cats)]
         d == Denote(ev.files, env, ev.mult)
@@ -73,13 +75,14 @@ ParseFailed(ev) ==
         mustParse == ev.must # "reject" /\ d.ok /\ d.soft \cap EitherWay = {}
         class == IF d.ok THEN "constructed" ELSE d.err
     IN  IF ev.res.exc # ""
-        THEN (IF ev.res.exc \notin allowed THEN {"rejection_is_rule_error:" \o class} ELSE {})
-             \cup (IF mustParse THEN {"well_formed_is_parsed:" \o ev.res.exc} ELSE {})
-        ELSE (IF mustReject THEN {"ill_formed_is_rejected:" \o class} ELSE {})
+        THEN (IF ev.res.exc \notin allowed THEN {"error_type:" \o class} ELSE {})
+             \cup (IF mustParse THEN {"refused:" \o ev.res.exc} ELSE {})
+        ELSE (IF mustReject THEN {"accepted:" \o class} ELSE {})
              \cup (IF d.ok /\ ev.must # "reject" THEN RulesDiff(d.st.rules, ev.res.v) ELSE {})
-             \cup UNION {RoundTripDiff(ev.res.v[i], ev.rt[i]) : i \in DOMAIN ev.rt}
+             \cup UNION {RoundTripDiff(ev.res.v[i], ev.rt[i]) : i \in DOMAIN ev.rt \cap DOMAIN ev.res.v}
+             \cup (IF ev.rt # <<>> /\ Len(ev.rt) # Len(ev.res.v) THEN {"roundtrip_per_rule"} ELSE {})
 
-LexFailed(ev) == IF Tokenise(ev.chars) # ev.toks THEN {"tokens_are_the_symbols_between_separators"} ELSE {}
+LexFailed(ev) == IF Tokenise(ev.chars) # ev.toks THEN {"tokens"} ELSE {}
 
 (* --- shipped rule files, stateful --- *)
 LexItem(toks) == [i \in DOMAIN toks |-> Classify(toks[i].s, toks[i].cp)]
@@ -91,20 +94,32 @@ ObsAsRule(o) == [name |-> o.name, category |-> o.category, cutoff |-> o.cutoff, 
 Texts(lt) == [i \in DOMAIN lt |-> lt[i].s]
 ItemFailed(ev) ==
     LET r == ItemResult(ev) IN
-    IF ~r.ok THEN {"shipped_rule_is_well_formed:" \o r.err}
+    IF ~r.ok THEN {"ill_formed:" \o r.err}
     ELSE IF ev.kind = "RULE"
     THEN IF Len(r.st.rules) # Len(st.rules) + 1 THEN {"one_rule_per_item"}
          ELSE LET e == r.st.rules[Len(r.st.rules)] IN
               (IF e.name # ev.obs.name THEN {"rule_names"} ELSE {}) \cup RuleDiff(e, ev.obs)
     ELSE IF DOMAIN r.st.aliases # DOMAIN st.aliases \cup {ev.name} \/ Len(r.st.rules) # Len(st.rules) THEN {"one_alias_per_item"}
-         ELSE IF Texts(r.st.aliases[ev.name]) # Texts(LexItem(ev.alias)) THEN {"alias_is_its_expanded_definition"} ELSE {}
+         ELSE IF Texts(r.st.aliases[ev.name]) # Texts(LexItem(ev.alias)) THEN {"alias_expansion"} ELSE {}
 ItemNext(ev) ==
     LET r == ItemResult(ev) IN
     IF ItemFailed(ev) = {} THEN [st EXCEPT !.aliases = r.st.aliases, !.rules = r.st.rules]
     ELSE IF ev.kind = "RULE" THEN [st EXCEPT !.rules = Append(st.rules, ObsAsRule(ev.obs))]
     ELSE [st EXCEPT !.aliases = WithAlias(st.aliases, ev.name, LexItem(ev.alias))]
 
+(* the shipped rules obtained through get_ruleset with multipliers ev.mult: every distance of the model
+   state (unit multipliers) scaled exactly once *)
+ScaledFailed(ev) ==
+    LET names == {ev.rules[j].name : j \in DOMAIN ev.rules}
+        obs(name) == ev.rules[CHOOSE j \in DOMAIN ev.rules : ev.rules[j].name = name]
+    IN  IF names # KnownNames(st.rules) \/ Len(ev.rules) # Len(st.rules) THEN {"rule_names"}
+        ELSE (IF \E i \in DOMAIN st.rules : obs(st.rules[i].name).cutoff # (st.rules[i].cutoff * ev.mult[1]) \div ev.mult[2]
+              THEN {"cutoff_scaled"} ELSE {})
+             \cup (IF \E i \in DOMAIN st.rules : obs(st.rules[i].name).nbhd # (st.rules[i].nbhd * ev.mult[3]) \div ev.mult[4]
+                   THEN {"neighbourhood_scaled"} ELSE {})
+
 Failed(ev) == CASE ev.op = "parse" -> ParseFailed(ev)
+                [] ev.op = "scaled" -> ScaledFailed(ev)
                 [] ev.op = "lex" -> LexFailed(ev)
                 [] ev.op = "item" -> ItemFailed(ev)
                 [] ev.op = "begin" -> {}
